@@ -340,3 +340,47 @@ func TestLargeBodies(t *testing.T) {
 	}
 	vh.Exhaustive("roundtrip", fmt.Sprintf("large bodies: 2^k and 2^k+1 octets for k=16..%d, versions b1/b2 (alternating above 2^22): %d bundles", maxK, n))
 }
+
+
+// ---- dense shape sweeps: one size or count at a time (see bundlekit.ShapeSpec) ----------------
+
+type ShapeCase struct {
+	Shape    string `json:"shape"`
+	N        int    `json:"n"`
+	ReadMode int    `json:"read_mode"`
+}
+
+var shapeProp = vh.Define("C03", "shape-sweep", func(c ShapeCase, r *vh.R) {
+	s, ok := bundlekit.ShapeSpec(c.Shape, c.N)
+	if !ok {
+		r.Skip = true
+		return
+	}
+	r.Class("shape:" + c.Shape)
+	sub := &vh.R{}
+	prop.Check(Case{Spec: *s, Cycles: 1, ReadMode: c.ReadMode}, sub)
+	r.V = sub.V
+	r.NT()
+})
+
+func TestShapeSweep(t *testing.T) {
+	modes := []int{0, gen.SourceBuffer, 7, 4096, gen.SourceBufio, gen.SourceSeekAdvanced, gen.SourceFile, gen.SourcePipe}
+	cnt := 0
+	for _, sh := range []string{"exchanges", "headers", "body-octets", "url-octets", "value-octets"} {
+		top, extra := 1100, []int{2047, 2048, 2049, 4095, 4096, 4097, 10000, 65535, 65536, 65537}
+		if sh == "exchanges" || sh == "headers" {
+			top, extra = 300, []int{500, 1000, 1100, 2000}
+		}
+		var ns []int
+		for n := 0; n <= top; n++ {
+			ns = append(ns, n)
+		}
+		for i, n := range append(ns, extra...) {
+			cnt++
+			if !shapeProp.One(t, ShapeCase{Shape: sh, N: n, ReadMode: modes[i%len(modes)]}) {
+				return
+			}
+		}
+	}
+	vh.Exhaustive("shape-sweep", fmt.Sprintf("exchanges per bundle and header fields per response 0..300 (+500, 1000, 1100, 2000), body / URL / header-value octets 0..1100 (+ around 2048, 4096, 65536, 10000), versions alternating, eight kinds of source: %d write/read/write/read round trips", cnt))
+}
